@@ -12,10 +12,13 @@ import (
 	"fmt"
 	"net/http"
 	"net/url"
+	"math"
 	"os"
 	"path/filepath"
 	"sort"
+	"strconv"
 	"strings"
+	"time"
 
 	"github.com/vkd/goag/generator"
 	"verif/rt"
@@ -30,7 +33,117 @@ type routeSpec struct {
 	SpecName  string
 	Schemes   map[string]schemeDef
 	HasSec    bool
+	// declared query/header parameters per template (union over operations), for request generation
+	Params map[string][]paramDef
 }
+
+type paramDef struct {
+	Loc, Name, Tag string
+	Array         bool
+}
+
+type ptypeDef struct {
+	tag    string
+	schema map[string]any
+}
+
+var qhTypes = []ptypeDef{
+	{"str", map[string]any{"type": "string"}},
+	{"int", map[string]any{"type": "integer"}},
+	{"int32", map[string]any{"type": "integer", "format": "int32"}},
+	{"int64", map[string]any{"type": "integer", "format": "int64"}},
+	{"bool", map[string]any{"type": "boolean"}},
+	{"f64", map[string]any{"type": "number"}},
+	{"f32", map[string]any{"type": "number", "format": "float"}},
+	{"time", map[string]any{"type": "string", "format": "date-time"}},
+}
+
+var queryNames = []string{"q", "page", "limit", "user_id", "ids", "from", "sort-by", "flag"}
+var headerNames = []string{"X-Request-Id", "x-trace", "Accept-Lang", "X-Count", "x-request-id", "If-Flag"}
+
+var lexemes = map[string][]string{
+	"str":   {"abc", "", "a b", "x/y", "é", "0"},
+	"int":   {"0", "7", "-3", "+5", "007", "2147483647", "2147483648", "-2147483649", "9223372036854775807", "9223372036854775808", "-9223372036854775808", "-9223372036854775809", "1_0", "abc", "", "1.0", " 1", "-", "+"},
+	"int32": {"0", "7", "-3", "+5", "007", "2147483647", "2147483648", "-2147483648", "-2147483649", "9223372036854775807", "abc", "", "1e3"},
+	"int64": {"0", "-1", "9223372036854775807", "9223372036854775808", "-9223372036854775808", "-9223372036854775809", "00", "abc", "", "0x10"},
+	"bool":  {"true", "false", "1", "0", "t", "F", "TRUE", "True", "yes", "", "tRUE", "T", "f", "FALSE", "False"},
+	"f64":   {"1.5", "1e3", "-0", "Inf", "-Inf", "1e400", "abc", "", "0x1p-2", "1_0", ".5", "5.", "1e-400", "NaN"},
+	"f32":   {"1.5", "1e3", "3.4e38", "3.5e38", "1e-46", "abc", "", "16777217", "-0"},
+	"time":  {"2024-01-02T03:04:05Z", "2024-01-02T03:04:05.123456789+02:00", "2024-01-02", "", "2024-13-01T00:00:00Z", "2024-01-02t03:04:05z", "2024-01-02T03:04:05", "0000-01-01T00:00:00Z"},
+}
+
+// leafDump is the Go library's verdict on a lexeme for the types the Lean model has no closed form for.
+func leafDump(tag, lex string) string {
+	switch tag {
+	case "f64":
+		v, err := strconv.ParseFloat(lex, 64)
+		if err != nil {
+			return "none"
+		}
+		return "f:" + strconv.FormatUint(math.Float64bits(v), 16)
+	case "f32":
+		v, err := strconv.ParseFloat(lex, 32)
+		if err != nil {
+			return "none"
+		}
+		return "f:" + strconv.FormatUint(math.Float64bits(float64(float32(v))), 16)
+	case "time":
+		t, err := time.Parse(time.RFC3339Nano, lex)
+		if err != nil {
+			return "none"
+		}
+		return "t:" + strconv.FormatInt(t.UnixNano(), 10)
+	}
+	return ""
+}
+
+// genQHParams draws query/header parameter declarations; refs go through components.
+func genQHParams(rng *PRNG, comps map[string]any, used map[string]bool) ([]any, []paramDef) {
+	var ps []any
+	var defs []paramDef
+	n := rng.Intn(4)
+	for i := 0; i < n; i++ {
+		loc := "query"
+		name := Pick(rng, queryNames)
+		if rng.Chance(2, 5) {
+			loc = "header"
+			name = Pick(rng, headerNames)
+		}
+		key := loc + ":" + strings.ToLower(name)
+		if used[key] {
+			continue
+		}
+		used[key] = true
+		t := Pick(rng, qhTypes)
+		arr := rng.Chance(1, 4)
+		var schema any = t.schema
+		if rng.Chance(1, 5) {
+			// schema $ref to a primitive component schema
+			sn := "S" + strings.Title(t.tag)
+			schemas := comps["schemas"].(map[string]any)
+			schemas[sn] = t.schema
+			schema = map[string]any{"$ref": "#/components/schemas/" + sn}
+		}
+		if arr {
+			schema = map[string]any{"type": "array", "items": schema}
+		}
+		p := map[string]any{"in": loc, "name": name, "schema": schema}
+		if rng.Chance(1, 2) {
+			p["required"] = true
+		}
+		defs = append(defs, paramDef{Loc: loc, Name: name, Tag: t.tag, Array: arr})
+		if rng.Chance(1, 5) {
+			// component-parameter $ref
+			pn := "P" + fmt.Sprint(len(comps["parameters"].(map[string]any)))
+			comps["parameters"].(map[string]any)[pn] = p
+			ps = append(ps, map[string]any{"$ref": "#/components/parameters/" + pn})
+		} else {
+			ps = append(ps, p)
+		}
+	}
+	return ps, defs
+}
+
 
 type schemeDef struct {
 	Kind string // bearer | header | query
@@ -120,11 +233,13 @@ func genBase(rng *PRNG) baseForm {
 	}
 }
 
-func genRouteSpec(rng *PRNG, name string, secMode bool) routeSpec {
+func genRouteSpec(rng *PRNG, name string, secMode bool, paramMode bool) routeSpec {
 	n := 1 + rng.Intn(7)
 	tpls := genTemplates(rng, n)
 	bf := genBase(rng)
-	rs := routeSpec{Templates: tpls, Base: bf.eff, Schemes: map[string]schemeDef{}}
+	rs := routeSpec{Templates: tpls, Base: bf.eff, Schemes: map[string]schemeDef{}, Params: map[string][]paramDef{}}
+	comps := map[string]any{"schemas": map[string]any{}, "parameters": map[string]any{}}
+	withParams := paramMode || rng.Chance(1, 4)
 	doc := map[string]any{
 		"openapi": "3.0.3",
 		"info":    map[string]any{"title": "t", "version": "1"},
@@ -157,7 +272,7 @@ func genRouteSpec(rng *PRNG, name string, secMode bool) routeSpec {
 			schemeNames = append(schemeNames, k)
 		}
 		sort.Strings(schemeNames)
-		doc["components"] = map[string]any{"securitySchemes": ss}
+		comps["securitySchemes"] = ss
 		if rng.Chance(1, 2) {
 			doc["security"] = genReqList(rng, schemeNames)
 		}
@@ -185,8 +300,18 @@ func genRouteSpec(rng *PRNG, name string, secMode bool) routeSpec {
 			return ps
 		}
 		piLevel := len(vars) > 0 && rng.Chance(1, 3)
+		var piParams []any
 		if piLevel {
-			pi["parameters"] = mkParams()
+			piParams = mkParams()
+		}
+		piUsed := map[string]bool{}
+		if withParams && rng.Chance(1, 2) {
+			ps, defs := genQHParams(rng, comps, piUsed)
+			piParams = append(piParams, ps...)
+			rs.Params[t] = append(rs.Params[t], defs...)
+		}
+		if len(piParams) > 0 {
+			pi["parameters"] = piParams
 		}
 		nm := 1 + rng.Intn(3)
 		ms := map[string]bool{}
@@ -199,8 +324,29 @@ func genRouteSpec(rng *PRNG, name string, secMode bool) routeSpec {
 		}
 		for m := range ms {
 			op := map[string]any{"responses": map[string]any{"default": map[string]any{"description": "d"}}}
+			var opParams []any
 			if len(vars) > 0 && (!piLevel || rng.Chance(1, 4)) {
-				op["parameters"] = mkParams()
+				opParams = mkParams()
+			}
+			if withParams {
+				opUsed := map[string]bool{}
+				for k := range piUsed {
+					opUsed[k] = true
+				}
+				ps, defs := genQHParams(rng, comps, opUsed)
+				opParams = append(opParams, ps...)
+				rs.Params[t] = append(rs.Params[t], defs...)
+				// override: re-declare a path-item level parameter (same in+name) with another type
+				if len(piParams) > 0 && rng.Chance(1, 3) {
+					if pp, ok := piParams[len(piParams)-1].(map[string]any); ok && pp["in"] != nil && pp["in"] != "path" {
+						t2 := Pick(rng, qhTypes)
+						opParams = append(opParams, map[string]any{"in": pp["in"], "name": pp["name"], "required": rng.Bool(), "schema": t2.schema})
+						rs.Params[t] = append(rs.Params[t], paramDef{Loc: pp["in"].(string), Name: pp["name"].(string), Tag: t2.tag})
+					}
+				}
+			}
+			if len(opParams) > 0 {
+				op["parameters"] = opParams
 			}
 			if withSec && rng.Chance(2, 3) {
 				op["security"] = genReqList(rng, schemeNames)
@@ -210,8 +356,19 @@ func genRouteSpec(rng *PRNG, name string, secMode bool) routeSpec {
 		paths[t] = pi
 	}
 	doc["paths"] = paths
+	for k, v := range comps {
+		if m, ok := v.(map[string]any); ok && len(m) == 0 {
+			delete(comps, k)
+		}
+	}
+	if len(comps) > 0 {
+		doc["components"] = comps
+	}
 	bs, _ := json.Marshal(doc)
-	rs.Gen = GenSpec{Name: name, Spec: bs, Ext: "json", BasePath: bf.flag, Cors: rng.Chance(1, 3), DoNotEdit: rng.Bool(), Client: rng.Chance(1, 6)}
+	rs.Gen = GenSpec{Name: name, Spec: bs, Ext: "json", BasePath: bf.flag, Cors: rng.Chance(1, 3), DoNotEdit: rng.Bool(), Client: rng.Chance(1, 6) && !withParams}
+	if paramMode && rng.Bool() {
+		rs.Gen.Cors = true
+	}
 	if rng.Chance(1, 4) {
 		rs.Gen.SpecHandler = "spec.yaml"
 		rs.SpecName = "spec.yaml"
@@ -250,7 +407,7 @@ func multiField(keys []string, m map[string][]string, hexKeys bool) string {
 	for _, k := range keys {
 		var vs []string
 		for _, v := range m[k] {
-			vs = append(vs, hexs(v))
+			vs = append(vs, "v"+hexs(v))
 		}
 		kk := k
 		if hexKeys {
@@ -307,6 +464,7 @@ func facetRoute(args []string) error {
 	shard := fs.Int("shard", 0, "shard index")
 	nshards := fs.Int("nshards", 1, "number of shards")
 	secMode := fs.Bool("sec", false, "security-heavy specs")
+	paramMode := fs.Bool("params", false, "query/header parameter-heavy specs")
 	nspecs := fs.Int("nspecs", 0, "specs per shard (0 = tier default)")
 	fs.Parse(args)
 	if *out == "" || *work == "" {
@@ -332,7 +490,10 @@ func facetRoute(args []string) error {
 	var results []GenResult
 	for i := 0; i < n; i++ {
 		name := fmt.Sprintf("p%02d_%03d", *shard, i)
-		rs := genRouteSpec(rng.Fork(), name, *secMode)
+		rs := genRouteSpec(rng.Fork(), name, *secMode, *paramMode)
+		if *secMode && i == 0 {
+			rs = kfSecSpec(name, *shard)
+		}
 		specs = append(specs, rs)
 		results = append(results, runGoag(*work, rs.Gen))
 	}
@@ -359,6 +520,23 @@ func facetRoute(args []string) error {
 		}
 		stats["specs"]++
 		fmt.Fprintf(cw, "api\t%s\t%s\t%s\t%s\t%s\n", r.Name, r.SpecPath, hexs(rs.Gen.BasePath), hexs(rs.SpecName), b01(rs.Gen.Cors))
+		// the Go library's verdict on every lexeme the requests may carry, for every leaf type
+		allLex := map[string]bool{"a": true, "7": true, "true": true, "1": true, "z": true, "good": true, "bad": true}
+		for _, ls := range lexemes {
+			for _, lx := range ls {
+				allLex[lx] = true
+			}
+		}
+		var lexList []string
+		for lx := range allLex {
+			lexList = append(lexList, lx)
+		}
+		sort.Strings(lexList)
+		for _, tag := range []string{"f64", "f32", "time"} {
+			for _, lx := range lexList {
+				fmt.Fprintf(cw, "leaf\t%s\t%s\t%s\n", tag, hexs(lx), leafDump(tag, lx))
+			}
+		}
 		crng := rng.Fork()
 		// API field name -> scheme name
 		schemeOf := map[string]string{}
@@ -427,10 +605,72 @@ func facetRoute(args []string) error {
 					}
 					c.Query = q.Encode()
 				}
-				parse := !rs.HasSec
+				parse := !crng.Chance(1, 10)
 				c.NoParse = !parse
 				c.Alias = schemeOf
 				fmt.Fprintln(cw, leanServeLine(&c, parse, schemeOf))
+				cases = append(cases, c)
+			}
+		}
+		// parameter-directed requests: routed paths with query / header values drawn from the
+		// lexeme classes of each declared parameter's type x cardinality {absent, one, many}
+		for _, t := range rs.Templates {
+			defs := rs.Params[t]
+			if len(defs) == 0 {
+				continue
+			}
+			for k := 0; k < 40; k++ {
+				segs := strings.Split(t, "/")[1:]
+				for i, sg := range segs {
+					if strings.HasPrefix(sg, "{") {
+						segs[i] = Pick(crng, []string{"a", "7", "true", "1"})
+					}
+				}
+				c := rt.Case{Op: "serve", Pkg: r.Name, ID: fmt.Sprintf("%s#q%s.%d", r.Name, hexs(t), k), Path: rs.Base + "/" + strings.Join(segs, "/"),
+					Method: Pick(crng, []string{"GET", "POST", "PUT", "DELETE", "PATCH", "HEAD", "OPTIONS"}), Mws: crng.Intn(2), Cors: crng.Bool()}
+				q := url.Values{}
+				for _, d := range defs {
+					card := 1
+					switch crng.Intn(8) {
+					case 0, 1:
+						card = 0
+					case 2:
+						card = 2 + crng.Intn(2)
+					}
+					if d.Array && card == 1 && crng.Bool() {
+						card = 2
+					}
+					for j := 0; j < card; j++ {
+						lx := Pick(crng, lexemes[d.Tag])
+						if crng.Chance(1, 2) {
+							lx = lexemes[d.Tag][crng.Intn(3)] // bias towards canonical lexemes
+						}
+						if d.Loc == "query" {
+							q.Add(d.Name, lx)
+						} else {
+							c.Headers = append(c.Headers, [2]string{d.Name, lx})
+						}
+					}
+				}
+				if rs.HasSec {
+					c.Auth = map[string][]string{}
+					for field := range schemeOf {
+						c.Auth[field] = []string{"good"}
+					}
+					for _, sd := range rs.Schemes {
+						switch sd.Kind {
+						case "bearer":
+							c.Headers = append(c.Headers, [2]string{"Authorization", "Bearer good"})
+						case "header":
+							c.Headers = append(c.Headers, [2]string{sd.Name, "good"})
+						case "query":
+							q.Add(sd.Name, "good")
+						}
+					}
+				}
+				c.Query = q.Encode()
+				c.Alias = schemeOf
+				fmt.Fprintln(cw, leanServeLine(&c, true, schemeOf))
 				cases = append(cases, c)
 			}
 		}
@@ -468,7 +708,7 @@ func facetRoute(args []string) error {
 					}
 					c.Query = q.Encode()
 				}
-				parse := !rs.HasSec
+				parse := true
 				c.NoParse = !parse
 				c.Alias = schemeOf
 				fmt.Fprintln(cw, leanServeLine(&c, parse, schemeOf))
@@ -558,4 +798,61 @@ func genRequestPaths(rng *PRNG, rs routeSpec, maxDepth, randomDeep int) []string
 	}
 	out = append(out, specials...)
 	return out
+}
+
+
+// kfSecSpec: fixed witness specs of the recorded C11 findings (run first in every sec run):
+// a requirement naming two schemes, an anonymous alternative {}, and schemes of kinds goag
+// does not implement (oauth2, http basic, apiKey in cookie).
+func kfSecSpec(name string, variant int) routeSpec {
+	ss := map[string]any{
+		"jwt":    map[string]any{"type": "http", "scheme": "bearer"},
+		"hkey":   map[string]any{"type": "apiKey", "in": "header", "name": "X-Key"},
+		"qkey":   map[string]any{"type": "apiKey", "in": "query", "name": "key"},
+		"oauth":  map[string]any{"type": "oauth2", "flows": map[string]any{"implicit": map[string]any{"authorizationUrl": "https://e.example/auth", "scopes": map[string]any{"r": "read"}}}},
+		"basic":  map[string]any{"type": "http", "scheme": "basic"},
+		"cookie": map[string]any{"type": "apiKey", "in": "cookie", "name": "sid"},
+	}
+	resp := map[string]any{"default": map[string]any{"description": "d"}}
+	op := func(sec []any) map[string]any {
+		o := map[string]any{"responses": resp}
+		if sec != nil {
+			o["security"] = sec
+		}
+		return o
+	}
+	req := func(names ...string) map[string]any {
+		m := map[string]any{}
+		for _, n := range names {
+			m[n] = []any{}
+		}
+		return m
+	}
+	paths := map[string]any{
+		"/and":    map[string]any{"get": op([]any{req("hkey", "jwt")}), "post": op([]any{req("hkey", "qkey")})},
+		"/anon":   map[string]any{"get": op([]any{req(), req("jwt")})},
+		"/oauth":  map[string]any{"get": op([]any{req("oauth")}), "put": op([]any{req("oauth"), req("hkey")})},
+		"/basic":  map[string]any{"get": op([]any{req("basic")}), "delete": op([]any{req("cookie")})},
+		"/plain":  map[string]any{"get": op(nil), "post": op([]any{}), "put": op([]any{req("jwt")}), "delete": op([]any{req("hkey")})},
+		"/c/{v1}": map[string]any{"get": map[string]any{"responses": resp, "parameters": []any{map[string]any{"in": "path", "name": "v1", "required": true, "schema": map[string]any{"type": "string"}}}, "security": []any{req("qkey"), req("jwt")}}},
+	}
+	doc := map[string]any{
+		"openapi": "3.0.3", "info": map[string]any{"title": "t", "version": "1"},
+		"components": map[string]any{"securitySchemes": ss},
+		"paths":      paths,
+	}
+	if variant%2 == 0 {
+		doc["security"] = []any{req("jwt")}
+	}
+	bs, _ := json.Marshal(doc)
+	var tpls []string
+	for t := range paths {
+		tpls = append(tpls, t)
+	}
+	sort.Strings(tpls)
+	return routeSpec{
+		Gen: GenSpec{Name: name, Spec: bs, Ext: "json", Cors: variant%3 == 0, DoNotEdit: true}, Templates: tpls, SpecName: "openapi.json",
+		Schemes: map[string]schemeDef{"jwt": {Kind: "bearer"}, "hkey": {Kind: "header", Name: "X-Key"}, "qkey": {Kind: "query", Name: "key"}},
+		HasSec:  true, Params: map[string][]paramDef{},
+	}
 }
